@@ -15,19 +15,20 @@ PushIntUnlessFuzzy(s, fuzzy, x) ==
   IF fuzzy THEN FiredH(PushOn(s, "int", 0), <<Hole(<<"int", 1>>, "int")>>)
   ELSE Fired(PushOn(s, "int", x))
 
-\* positional discrepancy of two items: lists are compared element by element over the common
-\* prefix plus the difference of their lengths; anything else counts 1 when different
+\* positional discrepancy of two items: lists are compared element by element (printed forms) over the
+\* common prefix plus the difference of their lengths; anything else counts 1 when different
 Discrepancy(a, b) ==
   IF a.k = "list" /\ b.k = "list"
   THEN LET n == Min2(Len(a.v), Len(b.v))
-       IN Cardinality({i \in 1..n : ~DeepEq(a.v[i], b.v[i])})
+       IN Cardinality({i \in 1..n : PrintItem(a.v[i]) # PrintItem(b.v[i])})
           + (IF Len(a.v) > Len(b.v) THEN Len(a.v) - Len(b.v) ELSE Len(b.v) - Len(a.v))
-  ELSE IF DeepEq(a, b) THEN 0 ELSE 1
+  ELSE IF PrintItem(a) = PrintItem(b) THEN 0 ELSE 1
 
-\* EQ on two item stacks (CODE.= / EXEC.=): the operands stay
+\* EQ on two item stacks (CODE.= / EXEC.=): equality of the printed forms (floats at three decimals);
+\* the operands stay
 ItemEq(s, f) ==
   IF ~Has(s, f, 2) THEN Unfired(s)
-  ELSE PushBoolUnlessFuzzy(s, Fuzzy(s[f][1]) \/ Fuzzy(s[f][2]), DeepEq(s[f][1], s[f][2]))
+  ELSE PushBoolUnlessFuzzy(s, Fuzzy(s[f][1]) \/ Fuzzy(s[f][2]), PrintItem(s[f][1]) = PrintItem(s[f][2]))
 
 \* CONS in the Lisp sense: the second item becomes the first element of the top item, which is
 \* coerced to a list when it is an atom
@@ -63,17 +64,17 @@ ApplyCode(n, s) ==
     \* container of the second item within the top item; the operands stay
     [] n = "CODE.CONTAINER" -> IF Has(s, "code", 2)
                                THEN LET r == ContainerOf(c[1], c[2]) IN
-                                    IF Fuzzy(c[1]) \/ Fuzzy(c[2])
+                                    IF StructFuzzy(c[1]) \/ StructFuzzy(c[2])
                                     THEN FiredH(PushOn(s, "code", r.item), <<Hole(<<"code", 1>>, "item")>>)
                                     ELSE Fired(PushOn(s, "code", r.item))
                                ELSE Unfired(s)
     \* does the top item contain the second item anywhere (structurally); the operands stay
     [] n = "CODE.CONTAINS" -> IF Has(s, "code", 2)
-                              THEN PushBoolUnlessFuzzy(s, Fuzzy(c[1]) \/ Fuzzy(c[2]), Occurs(c[1], c[2]))
+                              THEN PushBoolUnlessFuzzy(s, StructFuzzy(c[1]) \/ StructFuzzy(c[2]), Occurs(c[1], c[2]))
                               ELSE Unfired(s)
     \* does the second item contain the top item anywhere (structurally); the operands stay
     [] n = "CODE.MEMBER"   -> IF Has(s, "code", 2)
-                              THEN PushBoolUnlessFuzzy(s, Fuzzy(c[1]) \/ Fuzzy(c[2]), Occurs(c[2], c[1]))
+                              THEN PushBoolUnlessFuzzy(s, StructFuzzy(c[1]) \/ StructFuzzy(c[2]), Occurs(c[2], c[1]))
                               ELSE Unfired(s)
     [] n = "CODE.DEFINITION" -> IF ~Has(s, "name", 1) THEN Unfired(s)
                                 ELSE LET s1 == PopN(s, "name", 1) IN
@@ -137,7 +138,7 @@ ApplyCode(n, s) ==
                           ELSE Unfired(s)
     \* depth-first index of the second item within the top item, -1 when absent; operands stay
     [] n = "CODE.POSITION" -> IF Has(s, "code", 2)
-                              THEN PushIntUnlessFuzzy(s, Fuzzy(c[1]) \/ Fuzzy(c[2]), Position(c[1], c[2]))
+                              THEN PushIntUnlessFuzzy(s, StructFuzzy(c[1]) \/ StructFuzzy(c[2]), Position(c[1], c[2]))
                               ELSE Unfired(s)
     \* the whole CODE stack printed top first onto the NAME stack
     [] n = "CODE.PRINT" -> IF ~Has(s, "code", 1) THEN Unfired(s)
@@ -149,7 +150,7 @@ ApplyCode(n, s) ==
     [] n = "CODE.SIZE"  -> IF Has(s, "code", 1) THEN Fired(PushOn(s, "int", Size(c[1]))) ELSE Unfired(s)
     \* top = target, second = replacement, third = pattern
     [] n = "CODE.SUBST" -> IF ~Has(s, "code", 3) THEN Unfired(s)
-                           ELSE IF Fuzzy(c[1]) \/ Fuzzy(c[3])
+                           ELSE IF StructFuzzy(c[1]) \/ StructFuzzy(c[3])
                            THEN FiredH(SetF(s, "code", <<c[1]>> \o Drop(c, 3)), <<Hole(<<"code", 1>>, "item")>>)
                            ELSE Fired(SetF(s, "code", <<Subst(c[1], c[3], c[2])>> \o Drop(c, 3)))
 
